@@ -14,6 +14,10 @@ type unitSpec struct {
 	Abstract map[string]absSpec
 	// IgnoreFields: struct fields left out of the record (reading or writing them is refused), with the reason
 	IgnoreFields map[string]string
+	// CapSlices: slices are GoSlice.slice records (backing array up to the capacity + length) instead of
+	// plain lists, so that cap(), reslicing, copy, append, slices.Insert/Delete/Clone are meaningful.
+	// Aliasing between slices is NOT modelled in such a unit.
+	CapSlices bool
 }
 
 type absSpec struct {
@@ -38,6 +42,9 @@ var whitelist = []unitSpec{
 	{GoFile: "queues/arrayqueue/arrayqueue.go", Module: "ArrayQueueWrapGen", Skip: wrapSkip, Abstract: listAbs},
 	{GoFile: "stacks/linkedliststack/linkedliststack.go", Module: "LinkedListStackWrapGen", Skip: wrapSkip, Abstract: listAbs},
 	{GoFile: "queues/linkedlistqueue/linkedlistqueue.go", Module: "LinkedListQueueWrapGen", Skip: wrapSkip, Abstract: listAbs},
+	// the ArrayList core, with capacity-aware slices (GoSlice.v)
+	{GoFile: "lists/arraylist/arraylist.go", Module: "ArrayListCoreGen", CapSlices: true,
+		Skip: map[string]string{"String": skipFmt, "Sort": "takes a comparator and calls slices.SortFunc (sorting is property C09's model)"}},
 	{GoFile: "queues/priorityqueue/priorityqueue.go", Module: "PriorityQueueWrapGen",
 		Skip:         map[string]string{"String": skipFmt, "New": skipCtor, "NewWith": skipCtor},
 		Abstract:     map[string]absSpec{"heap": {Pure: []string{"Peek", "Empty", "Size", "Values"}}},
